@@ -18,3 +18,41 @@ package main
 
 // Both daemons agree on the 5-byte camera-reset marker.
 //@ lemma [C14] clearMarkerAgrees := constof("github.com/TheCacophonyProject/thermal-recorder/cmd/leptond", "clearBuffer") == constof("github.com/TheCacophonyProject/thermal-recorder/cmd/thermal-recorder", "clearBuffer") && constof("github.com/TheCacophonyProject/thermal-recorder/cmd/leptond", "clearBuffer") == "clear" && len("clear") == 5
+
+// The frame stream the camera daemon produces (the sender's half of C14): after the
+// header, whole frames and nothing else - each frame read from the camera is written
+// once, as one write of the whole raw frame; a camera restart is announced by exactly
+// one 5-byte "clear" marker between two runs of frames. The connection is used by
+// nothing but these writes.
+//@ func runCamera
+//@   mode permissive
+//@   requires conf != nil && camera != nil && conn != nil && service != nil && service.actions != nil
+//@   only [C14] conn in SetWriteBuffer#1, Write#1
+//@   call Write#1 assert [C14] len($1) == lepton3.BytesPerFrame
+//@   call Write#1 assert [C14] arr($1) == arr(frame) && off($1) == off(frame)
+//@   call Write#1 assert [C14] ncalls("NextFrame") == ncalls("Write") + 1 && siteres("NextFrame", 1) == nil
+//@   loop 1 invariant [C14] len(frame) == lepton3.BytesPerFrame && ncalls("NextFrame") == ncalls("Write")
+//@   check [C14] ncalls("NextFrame") - 1 <= ncalls("Write") && ncalls("Write") <= ncalls("NextFrame")
+
+//@ func runMain
+//@   mode permissive
+//@   only [C14] conn in sendCameraSpecs#1, runCamera#1, Write#1, Close#1
+//@   call DialUnix#1 given_after $result.1 == nil ==> $result.0 != nil
+//@   call startService#1 given_after $result.1 == nil ==> $result.0 != nil && $result.0.actions != nil
+//@   call ParseConfig#1 given_after $result.1 == nil ==> $result.0 != nil
+//@   call startCamera#1 given_after $result.1 == nil ==> $result.0 != nil
+//@   call startCamera#2 given_after $result.1 == nil ==> $result.0 != nil
+//@   call sendCameraSpecs#1 assert [C14] $2 == conn && ncalls("Write") == 0 && ncalls("runCamera") == 0
+//@   call runCamera#1 assert [C14] $2 == conn && ncalls("sendCameraSpecs") == 1 && sitehappened("sendCameraSpecs", 1) && siteres("sendCameraSpecs", 1) == nil && ncalls("Write") + 1 == ncalls("runCamera") + 1
+//@   call Write#1 assert [C14] len($1) == 5 && $1[0] == 99 && $1[1] == 108 && $1[2] == 101 && $1[3] == 97 && $1[4] == 114 && ncalls("Write") + 1 == ncalls("runCamera")
+//@   loop 2 invariant [C14] conn != nil && conf != nil && service != nil && service.actions != nil && camera != nil && ncalls("Write") == ncalls("runCamera") && ncalls("sendCameraSpecs") == 1
+
+//@ func (s *leptondService) setCamera
+//@   requires s != nil
+//@   modifies s.camera
+//@   ensures s.camera == camera
+
+//@ func (s *leptondService) removeCamera
+//@   requires s != nil
+//@   modifies s.camera
+//@   ensures s.camera == nil
